@@ -106,4 +106,15 @@ theorem fromReward_ok {K : Keys} {prev : Nat} {txs : List Tx} {rout rkern : Nat}
   cases h
   exact ⟨agg, ha, ho, rfl, rfl, rfl, rfl⟩
 
+/-- `from_reward` fails only when `aggregate` fails: the sum of the aggregate's offset and the
+previous header's `total_kernel_offset` never does (also when the two cancel) -/
+theorem fromReward_of_aggregate {K : Keys} {prev : Nat} {txs : List Tx} {rout rkern : Nat} {agg : Tx}
+    (h : aggregate K txs = .ok agg) :
+    fromReward K prev txs rout rkern =
+      .ok ⟨(toSecrets [agg.offset, prev]).sum % N, agg.v2, agg.inputs, insertSorted K.ok rout agg.outputs,
+        insertSorted K.kk rkern agg.kernels⟩ := by
+  unfold fromReward
+  rw [h]
+  simp only [sumKernelOffsets_nil]
+
 end GV.Tx
